@@ -1158,6 +1158,48 @@ fn check_injection(rep: &mut Report, rng: &mut Rng, idx: u64) {
     }
 }
 
+/// Child: the same partly broken document is loaded three times in one process; what `load_config_file`
+/// reports goes to stderr.
+pub fn child_reports(args: &[String]) -> i32 {
+    let dir = std::path::PathBuf::from(&args[0]);
+    let path = dir.join("log4rs.yaml");
+    std::fs::write(&path, format!("appenders:\n  ok:\n    kind: file\n    path: {}/ok.log\n  broken:\n    kind: file\nroot:\n  level: info\n  appenders: [ok, ghost, broken]\n", dir.to_str().unwrap())).unwrap();
+    for _ in 0..3 {
+        let _ = log4rs::config::load_config_file(&path, Deserializers::default());
+    }
+    // and a document with a single problem, three times
+    eprintln!("SECOND-DOCUMENT");
+    std::fs::write(&path, format!("appenders:\n  ok:\n    kind: file\n    path: {}/ok.log\nroot:\n  level: info\n  appenders: [ok, phantom]\n", dir.to_str().unwrap())).unwrap();
+    for _ in 0..3 {
+        let _ = log4rs::config::load_config_file(&path, Deserializers::default());
+    }
+    0
+}
+
+fn report_cases(rep: &mut Report) {
+    if rep.only.is_some() {
+        return;
+    }
+    let sc = Scratch::new("c14r");
+    match crate::childproc::run_child(&["c14reports".to_owned(), sc.path.to_str().unwrap().to_owned()], &[], std::time::Duration::from_secs(60)) {
+        Err(e) => rep.inconclusive(&format!("cannot spawn the reports child: {}", e)),
+        Ok(o) if o.timed_out || o.status != Some(0) => rep.inconclusive("reports child failed"),
+        Ok(o) => {
+            let err = String::from_utf8_lossy(&o.stderr).into_owned();
+            rep.case_enumerated(true);
+            rep.count("lossy_loads_observed_on_stderr", 3);
+            let ghost = err.matches("ghost").count();
+            let broken = err.matches("broken").count();
+            // every load reports the dangling name `ghost` once, and the appender `broken` (missing path) at least once
+            let phantom = err.matches("phantom").count();
+            if ghost != 3 || broken < 3 || phantom != 3 {
+                rep.violation("C14:lossy:not-reported-on-every-load", json!({"what": "the same partly broken document was loaded three times in one process",
+                    "reports_naming_ghost": ghost, "reports_naming_broken": broken, "reports_naming_phantom_in_the_second_document": phantom, "stderr": err}));
+            }
+        }
+    }
+}
+
 /// Encoder sections at the edge of "present": an empty pattern (nothing is written per record, as with
 /// `PatternEncoder::new("")`), a pattern that is only a newline, only `kind`, an empty section.
 fn edge_encoder_cases(rep: &mut Report, _rng: &mut Rng, idx: u64) {
@@ -1241,6 +1283,7 @@ pub fn run(rep: &mut Report) {
     run_cases(rep, "equivalence", if thorough { 4000 } else { 400 }, check_equivalence);
     run_cases(rep, "injection", if thorough { 40_000 } else { 8_000 }, check_injection);
     run_cases(rep, "edge-encoder", 21, edge_encoder_cases);
+    report_cases(rep);
     rep.require(rep.counter("format_sets_compared") > 50, "fewer than 50 complete format sets compared");
     rep.require(rep.counter("rolling_layouts_compared") > 20, "fewer than 20 rolling layouts compared");
     rep.require(rep.set_size("injection_kinds") >= 20, "fewer than 20 injection kinds exercised");
